@@ -32,6 +32,9 @@ type c18Txn struct {
 	// scripted peer only: the DATA command itself is answered 451; the client's
 	// Data/LMTPData fails and the application goes on with the next MAIL
 	DataRefused bool `json:"data_refused,omitempty"`
+	// scripted peer only: the first DATA of the transaction is answered 451, the
+	// peer keeps the transaction and the application calls Data/LMTPData again
+	DataRetry bool `json:"data_retry,omitempty"`
 }
 
 type c18Case struct {
@@ -49,7 +52,7 @@ type c18Case struct {
 func runC18(sc []c18Txn) ([]*c18Case, string, error) {
 	fake := false
 	for _, tx := range sc {
-		if tx.DataRefused {
+		if tx.DataRefused || tx.DataRetry {
 			fake = true
 		}
 		for _, r := range tx.Rcpts {
@@ -155,6 +158,23 @@ func runC18(sc []c18Txn) ([]*c18Case, string, error) {
 			} else {
 				w, err = cl.Data()
 			}
+			if tx.DataRetry {
+				if err == nil {
+					done <- res{out, fmt.Sprintf("txn %d: the first DATA was answered 451 and Data returned no error", ti+1)}
+					return
+				}
+				if tx.WithCb {
+					w, err = cl.LMTPData(func(rcpt string, status *smtp.SMTPError) {
+						code := 250
+						if status != nil {
+							code = status.Code
+						}
+						c.Callbacks = append(c.Callbacks, []interface{}{rcpt, code})
+					})
+				} else {
+					w, err = cl.Data()
+				}
+			}
 			if tx.DataRefused {
 				if err == nil {
 					done <- res{out, fmt.Sprintf("txn %d: the DATA command was answered 451 and Data returned no error", ti+1)}
@@ -199,6 +219,7 @@ func c18FakePeer(conn net.Conn, sc []c18Txn) {
 	say("220 fake.test LMTP")
 	ti := -1
 	ri := 0
+	retried := map[int]bool{}
 	var accepted []c18Rcpt
 	for {
 		conn.SetReadDeadline(time.Now().Add(10 * time.Second))
@@ -237,6 +258,11 @@ func c18FakePeer(conn net.Conn, sc []c18Txn) {
 			if ti >= 0 && ti < len(sc) && sc[ti].DataRefused {
 				accepted = nil
 				say("451 4.3.0 not now")
+				continue
+			}
+			if ti >= 0 && ti < len(sc) && sc[ti].DataRetry && !retried[ti] {
+				retried[ti] = true
+				say("451 4.3.0 try that again") // the transaction stays as it is
 				continue
 			}
 			say("354 go ahead")
@@ -319,6 +345,21 @@ func genC18(maxTxn, maxR int) [][]c18Txn {
 				}
 			}
 			out = append(out, fs)
+		}
+		// the same sequence against a scripted peer that refuses the first DATA of one transaction and keeps it
+		if i%3 == 2 {
+			fs := append([]c18Txn{}, sc...)
+			k := i % len(fs)
+			hasAcc := false
+			for _, r := range fs[k].Rcpts {
+				if !r.Refused {
+					hasAcc = true
+				}
+			}
+			if hasAcc {
+				fs[k].DataRetry = true
+				out = append(out, fs)
+			}
 		}
 		// the same sequence against the scripted peer, one transaction ended by a refused DATA command
 		if i%3 == 0 && len(sc) > 1 {
